@@ -6,8 +6,10 @@ class C17(TieCheck):
     area = "C17"
     props = "Props_C17.v"
     harness = "c17"
-    extra_trust = ["model: coq/C17/Model.v transliterates CleanPath/bufApp (path.go:26-157); spec: coq/C17/Spec.v"]
-    assumptions = ["Go strings are finite byte sequences; the 128-byte stack buffer is an allocation detail the model abstracts (both branches allocate a zeroed buffer of the same length)"]
+    gentie = "C17"          # tie A: CleanPath / bufApp regenerated into coq/Gen/GenPath.v, proved equal to Model.v (docs/Gen.md)
+    extra_trust = ["model: coq/C17/Model.v transliterates CleanPath/bufApp (path.go:26-157); spec: coq/C17/Spec.v",
+                   "tie A: harness/cmd/gotrans translates CleanPath and bufApp into coq/Gen/GenPath.v on every run; coq/Gen/BridgeC17.v proves, for every input, that the generated code (real buffer with capacity, both branches of the stackBufSize threshold) returns Model.cleanpath p = clean_spec p (Props_Gen_C17.v); trusted: gotrans, coq/Gen/GoSem.v (sampled against the real slice operations)"]
+    assumptions = ["Go strings are finite byte sequences; int arithmetic on lengths and indexes does not overflow (Z)"]
 
 
 CHECK = C17()
